@@ -584,17 +584,49 @@ class Interp:
             if isinstance(container, str) and isinstance(x, str): return x in container
             if isinstance(x, str):
                 if x == '': return True
-                if len(x) == 1 and isinstance(container, SStr): return self.st.contains_char(container, x)
+                if len(x) == 1 and isinstance(container, SStr):
+                    c = self.st.norm(container); vs = []
+                    for a in c.atoms:
+                        if isinstance(a, str):
+                            if x in a: return True
+                        elif x not in self.st.excl.get(a.name, ()): vs.append(a)
+                    if not vs: return False
+                    st = self.st
+                    none = [st.absent_expr(a, x) for a in vs]
+                    some = [z3.Or(*[st.contains_expr(a, x) for a in vs])]
+                    k = st.choose([('absent', none), ('present', some)], f'{x!r} in')
+                    if k == 0:
+                        del st.pc[-len(none):]       # recorded structurally as exclusions of the leaves
+                        for a in vs: st.excl.setdefault(a.name, set()).add(x)
+                        return False
+                    return True
                 c = self.st.norm(container)
                 if c.is_lit(): return x in c.lit()
                 if any(isinstance(a, str) and x in a for a in c.atoms): return True
-                if all(self.st.free_of(a, ch) for a in c.atoms if isinstance(a, Var) for ch in x[:1]) and False: return False
-                return SBool(z3.Contains(c.z(), z3.StringVal(x)))
+                return self._contains_multi(c, x)
             c = self.st.norm(S(container))
             return SBool(z3.Contains(c.z(), self.st.norm(x).z()))
         if hasattr(container, 'pyvc_contains'): return container.pyvc_contains(self, x)
         if container is None: self.raise_('TypeError', "argument of type 'NoneType' is not iterable")
         raise OutsideSubset(f'contains {type(container).__name__}')
+    def _contains_multi(self, c, x):
+        """`x in c` for a multi-character literal x and a structured string c (no literal atom contains x)"""
+        st = self.st; atoms = list(c.atoms)
+        def may_start_suffix(a, j):      # can atom a END with x[:j] (as a suffix of its own text, a non-empty part of it)
+            if isinstance(a, str): return any(a.endswith(x[:j][-m:]) for m in range(1, j + 1))
+            return not all(ch in st.excl.get(a.name, ()) for ch in x[:j][-1:])
+        def may_start_prefix(a, j):      # can atom a START with a non-empty prefix of x[j:]
+            if isinstance(a, str): return a[0] == x[j]
+            return x[j] not in st.excl.get(a.name, ())
+        straddle = False
+        for i in range(len(atoms) - 1):
+            for j in range(1, len(x)):
+                if may_start_suffix(atoms[i], j) and may_start_prefix(atoms[i + 1], j): straddle = True
+        if straddle: return SBool(z3.Contains(c.z(), z3.StringVal(x)))
+        parts = []
+        for a in atoms:
+            if isinstance(a, Var) and not any(ch in st.excl.get(a.name, ()) for ch in x): parts.append(SBool(st.contains_expr(a, x)))
+        return self.disj(parts) if parts else False
     def binop(self, op, a, b):
         t = type(op)
         if t is ast.Add:
@@ -676,6 +708,14 @@ class Interp:
             return simp(SStr(s.atoms[:-1] + (s.atoms[-1][:hi],)))
         if lo in (None, 0) and isinstance(hi, int) and hi >= 0 and s.atoms and isinstance(s.atoms[0], str) and len(s.atoms[0]) >= hi:
             return s.atoms[0][:hi]
+        if hi is None and isinstance(lo, int) and lo > 0 and s.atoms and isinstance(s.atoms[0], Var):
+            # v[lo:] with a leading variable: v := h.t with |h| == lo (when v is long enough)
+            v = s.atoms[0]; st = self.st
+            if st.branch(SBool(z3.Length(v.z) >= lo), 'slice:long-enough'):
+                n = len(st.subst); ex = st.excl.get(v.name, set())
+                h = Var(f'{v.name}.{n}h'); t = Var(f'{v.name}.{n}t'); st.excl[h.name] = set(ex); st.excl[t.name] = set(ex)
+                st.do_subst(v, (h, t)); st.assume(z3.Length(h.z) == lo)
+                return simp(SStr((t,) + s.atoms[1:]))
         raise OutsideSubset('symbolic slice')
     def dict_set(self, d, k, v):
         if isinstance(k, (PDict, list, PSet)): self.raise_('TypeError', 'unhashable type')
@@ -1192,6 +1232,13 @@ def _s_startswith(it, s, p):
     if sn.atoms and isinstance(sn.atoms[0], str) and (len(sn.atoms[0]) >= len(lp)): return sn.atoms[0].startswith(lp)
     if sn.atoms and isinstance(sn.atoms[0], str) and not lp.startswith(sn.atoms[0]): return False
     if lp == '': return True
+    if sn.atoms and isinstance(sn.atoms[0], Var) and sn.atoms[0].name in it.st.nonempty and lp[0] in it.st.excl.get(sn.atoms[0].name, ()): return False
+    if len(sn.atoms) == 1: return SBool(z3.PrefixOf(z3.StringVal(lp), sn.z()))
+    if isinstance(sn.atoms[0], Var) and len(lp) == 1:
+        # first atom may be empty: x + rest startswith c  <=>  x starts with c, or x == '' and rest starts with c
+        x = sn.atoms[0]; rest = _s_startswith(it, SStr(sn.atoms[1:]), lp)
+        a = z3.BoolVal(False) if lp in it.st.excl.get(x.name, ()) else z3.PrefixOf(z3.StringVal(lp), x.z)
+        return SBool(z3.Or(a, z3.And(x.z == z3.StringVal(''), zb(rest))))
     return SBool(z3.PrefixOf(z3.StringVal(lp), sn.z()))
 def _s_endswith(it, s, p):
     ls, lp = _lit(it, s), _lit(it, p)
@@ -1201,6 +1248,12 @@ def _s_endswith(it, s, p):
     if sn.atoms and isinstance(sn.atoms[-1], str) and (len(sn.atoms[-1]) >= len(lp)): return sn.atoms[-1].endswith(lp)
     if sn.atoms and isinstance(sn.atoms[-1], str) and not lp.endswith(sn.atoms[-1]): return False
     if lp == '': return True
+    if sn.atoms and isinstance(sn.atoms[-1], Var) and sn.atoms[-1].name in it.st.nonempty and lp[-1] in it.st.excl.get(sn.atoms[-1].name, ()): return False
+    if len(sn.atoms) == 1: return SBool(z3.SuffixOf(z3.StringVal(lp), sn.z()))
+    if isinstance(sn.atoms[-1], Var) and len(lp) == 1:
+        x = sn.atoms[-1]; rest = _s_endswith(it, SStr(sn.atoms[:-1]), lp)
+        a = z3.BoolVal(False) if lp in it.st.excl.get(x.name, ()) else z3.SuffixOf(z3.StringVal(lp), x.z)
+        return SBool(z3.Or(a, z3.And(x.z == z3.StringVal(''), zb(rest))))
     return SBool(z3.SuffixOf(z3.StringVal(lp), sn.z()))
 def _s_replace(it, s, old, new, count=-1):
     ls, lo, ln = _lit(it, s), _lit(it, old), _lit(it, new)
